@@ -21,6 +21,15 @@ R = 40
 CONFIGS = [('poly-pen0-trans', 0, 0, 1), ('poly-pen0-notrans', 0, 0, 0), ('poly-pen10-trans', 0, 10, 1),
            ('poly-pen0-trans-moves', 0, 0, 1), ('poly-pen0-notrans-moves', 0, 0, 0),
            ('orth-trans', 1, 10, 1), ('orth-notrans', 1, 10, 0)]
+# "contains" family (checks/avoid_lib.py gen_contains_history): a connector endpoint starts strictly inside a shape, the shape is
+# moved / resized / deleted away (variants: moved back over it, another shape moved or added onto it), then the other endpoint, the
+# endpoint itself or some other shape is changed so that new visibility edges are computed for it.  Orthogonal: rectangles only.
+# "shared" family: several connectors whose endpoints coincide exactly (the rotational sweep keeps a std::set of vertices ordered by
+# angle, distance and VertID), in dense scenes with mostly shape moves / adds after the connectors exist
+SHARED_CONFIGS = [('shared-poly-pen0-trans', 0, 0, 1), ('shared-poly-pen0-notrans', 0, 0, 0), ('shared-poly-pen10-trans', 0, 10, 1),
+                  ('shared-orth-trans', 1, 10, 1)]
+CONTAINS_CONFIGS = [('contains-poly-pen0-trans', 0, 0, 1), ('contains-poly-pen0-notrans', 0, 0, 0), ('contains-poly-pen10-trans', 0, 10, 1),
+                    ('contains-orth-trans', 1, 10, 1), ('contains-orth-notrans', 1, 10, 0)]
 
 
 # ------------------------------------------------------------------------------------------ histories
@@ -42,9 +51,12 @@ def hist_script(ops, mode, pen, trans):
     return ['R %d %s 0.0 0.0 %d' % (mode, repr(float(pen)), trans)] + [op_str(o) for o in ops] + ['X']
 
 
-def scene_valid(shapes, conns, generic=True):
-    """shapes {id: poly}, conns {cid: (s, d)}: boxes separated by >= 1, endpoints outside every (closed) bounding box,
-    distinct endpoints, and (generic stream) no degenerate chord between graph vertices"""
+def scene_valid(shapes, conns, generic=True, family=None):
+    """shapes {id: poly}, conns {cid: (s, d)}: boxes separated by >= 1, endpoints outside every (closed) bounding box
+    (family 'contains': or strictly inside a shape), distinct endpoints, and (generic stream) no degenerate chord between
+    graph vertices"""
+    if family == 'contains':
+        return A.contains_scene_valid(shapes, conns, generic)
     polys = list(shapes.values())
     bs = [A.bbox(P) for P in polys]
     for i in range(len(bs)):
@@ -78,7 +90,7 @@ def seq_apply(shapes, conns, o):
     return shapes, conns
 
 
-def simulate(ops, trans, generic=True):
+def simulate(ops, trans, generic=True, family=None):
     """legality + validity of a history; returns the list of (shapes, conns) at each P, or None"""
     shapes, conns, fresh, snaps = {}, {}, set(), []
     for o in ops:
@@ -101,12 +113,14 @@ def simulate(ops, trans, generic=True):
         shapes, conns = seq_apply(shapes, conns, o)
         if o[0] == 'A':
             fresh.add(o[1])
-        if not scene_valid(shapes, conns, generic):
+        if not scene_valid(shapes, conns, generic, family):
             return None
     return snaps
 
 
-def gen_history(rng, trans, orth, w_add=28, w_move=30, w_resize=10, w_del=17):
+def gen_history(rng, trans, orth, w_add=28, w_move=30, w_resize=10, w_del=17, shared=False):
+    """shared: 2-4 connectors, most of which share an endpoint POSITION with an earlier connector (coincident source points, coincident
+    destination points, one's source on another's destination); endpoint moves may land exactly on another connector's endpoint"""
     ops, shapes, conns = [], {}, {}
     nid = [1]
 
@@ -129,11 +143,22 @@ def gen_history(rng, trans, orth, w_add=28, w_move=30, w_resize=10, w_del=17):
             if try_op(('A', nid[0], P)):
                 nid[0] += 1
                 break
-    for c in range(rng.range(1, 3)):
+    for c in range(rng.range(2, 4) if shared else rng.range(1, 3)):
         for _ in range(40):
             polys = list(shapes.values())
             s = A.free_point(rng, polys, R, use_bbox=True); d = A.free_point(rng, polys, R, avoid=(s,), use_bbox=True)
-            if try_op(('C', 100 + c, s, d)):
+            if shared and conns and rng.chance(4, 5):
+                o = conns[rng.choice(sorted(conns))]
+                k = rng.below(4)
+                if k == 0:
+                    s = o[0]
+                elif k == 1:
+                    d = o[1]
+                elif k == 2:
+                    s = o[1]
+                else:
+                    s, d = o[0], (d if rng.chance(3, 4) else (o[1][0] + rng.range(-4, 4), o[1][1] + rng.range(-4, 4)))
+            if s != d and try_op(('C', 100 + c, s, d)):
                 break
     ops.append(('P',))
     fresh = set()
@@ -171,6 +196,8 @@ def gen_history(rng, trans, orth, w_add=28, w_move=30, w_resize=10, w_del=17):
             c = rng.choice(sorted(conns))
             for _ in range(30):
                 p = A.free_point(rng, list(shapes.values()), R, use_bbox=True)
+                if shared and len(conns) > 1 and rng.chance(1, 2):
+                    p = conns[rng.choice([x for x in sorted(conns) if x != c])][rng.below(2)]      # onto another connector's endpoint
                 if try_op(('E', c, rng.below(2), p)):
                     done = True
                     break
@@ -251,9 +278,10 @@ def evaluate(exe, drv, qdrv, hists, stats, with_model=True, samples=None):
     fresh_lines, fresh_idx = [], []
     per_hist = []
     for h, run, ml in zip(hists, runs, mlines):
-        snaps = simulate(h['ops'], h['trans'], generic=False) or []
+        snaps = simulate(h['ops'], h['trans'], generic=False, family=h.get('family')) or []
         model = parse_model_line(ml)
         per_hist.append((snaps, model))
+        h['_snaps'] = snaps
         nP = sum(1 for o in h['ops'] if o[0] == 'P')
         if run['exc'] is not None:
             fails.append(dict(kind='exception', what='assertion / exception inside libavoid on a legal history', exception=run['exc'], hist=h))
@@ -368,10 +396,33 @@ def evaluate(exe, drv, qdrv, hists, stats, with_model=True, samples=None):
                 fails.append(dict(step, kind='model', what='reference search failed its certificate (SearchFail)'))
                 continue
             cm = None if m is None else m[0] / A.PICO
-        if abs(ci - cf) > TOL or (cm is not None and abs(ci - cm) > TOL):
+        # endpoints strictly inside a shape of the CURRENT scene ("contains" family): libavoid ignores such a shape only for the
+        # visibility edges of that endpoint, the reference router (like the property's wording) for the whole connector, so the model
+        # optimum is a lower bound there; with both endpoints in free space it is the exact optimum.
+        inside_now = [j for j, Pg in enumerate(polys) if A.inside_strict(Pg, s) or A.inside_strict(Pg, t)]
+        if h.get('family') == 'contains':
+            stats['contains_comparisons'] += 1
+            if inside_now:
+                stats['contains_endpoint_inside_now'] += 1
+            # was an endpoint of this connector inside a shape (by id) at an earlier step that does not contain it now?
+            hs = h.get('_snaps') or []
+            was = False
+            for (sh0, cn0) in hs[:k]:
+                if c in cn0:
+                    for i0, P0 in sh0.items():
+                        for e_old, e_new in zip(cn0[c], (s, t)):
+                            if A.inside_strict(P0, e_old) and e_old == e_new and not (i0 in hs[k][0] and A.inside_strict(hs[k][0][i0], e_new)):
+                                was = True
+            if was:
+                stats['contains_left_behind_endpoint'] += 1
+                if len(route) > 2:
+                    stats['contains_left_behind_nontrivial'] += 1
+        model_bad = cm is not None and (ci < cm - TOL if inside_now else abs(ci - cm) > TOL)
+        if abs(ci - cf) > TOL or model_bad:
             fails.append(dict(step, kind='cost', what='route cost after the history differs from routing from scratch '
-                              '(incremental %.9g, fresh router %.9g, model optimum %s)' % (ci, cf, cm),
-                              incremental_cost=ci, fresh_cost=cf, model_optimum=cm))
+                              '(incremental %.9g, fresh router %.9g, model optimum %s%s)' % (ci, cf, cm, ' = lower bound only: an endpoint is '
+                              'inside a shape' if inside_now else ''),
+                              incremental_cost=ci, fresh_cost=cf, model_optimum=cm, shapes_containing_an_endpoint=inside_now))
     return fails
 
 
@@ -386,7 +437,7 @@ def shrink(exe, drv, qdrv, h, kind):
         i = 0
         while i < len(ops):
             cand = ops[:i] + ops[i + 1:]
-            if cand and cand[-1] == ('P',) and simulate(cand, h['trans'], generic=h.get('generic', True)) is not None:
+            if cand and cand[-1] == ('P',) and simulate(cand, h['trans'], generic=h.get('generic', True), family=h.get('family')) is not None:
                 st = new_stats()
                 f = evaluate(exe, drv, qdrv, [dict(h, ops=cand)], st, with_model=False)
                 if any(x['kind'] == kind for x in f):
@@ -399,7 +450,8 @@ def shrink(exe, drv, qdrv, h, kind):
 
 def new_stats():
     return {'histories': 0, 'by_config': {}, 'ops_hist': {}, 'op_kinds': {}, 'scene_checks': 0, 'noop_checks': 0, 'comparisons': 0,
-            'nontrivial': set(), 'known_degenerate_chord': 0, 'corpus': 0}
+            'nontrivial': set(), 'known_degenerate_chord': 0, 'corpus': 0, 'contains_comparisons': 0, 'contains_endpoint_inside_now': 0,
+            'contains_left_behind_endpoint': 0, 'contains_left_behind_nontrivial': 0, 'contains_variants': {}}
 
 
 def report(res, exe, drv, qdrv, fails, stats, do_shrink=True):
@@ -490,6 +542,22 @@ def run(tier):
             hists.append(dict(cfg=name, mode=mode, pen=pen, trans=trans, ops=ops, generic=True))
     for _ in range(6 if tier == 'quick' else 40):
         hists.append(dict(cfg='chord-poly-pen0', mode=0, pen=0, trans=1, ops=gen_chord_history(rng), generic=False))
+    for (name, mode, pen, trans) in SHARED_CONFIGS:
+        for k in range(n_per):
+            ops = gen_history(rng, trans, mode == 1, w_add=20, w_move=50, w_resize=10, w_del=8, shared=True) if k % 2 else \
+                gen_history(rng, trans, mode == 1, w_add=5, w_move=65, w_resize=10, w_del=10, shared=True)
+            hists.append(dict(cfg=name, mode=mode, pen=pen, trans=trans, ops=ops, generic=True))
+    n_cont = 14 if tier == 'quick' else 120
+    for (name, mode, pen, trans) in CONTAINS_CONFIGS:
+        k = 0
+        while k < n_cont:
+            ops, tags = A.gen_contains_history(rng, rect_only=(mode == 1))
+            if ops is None:
+                continue
+            k += 1
+            for t in tags:
+                stats['contains_variants'][t] = stats['contains_variants'].get(t, 0) + 1
+            hists.append(dict(cfg=name, mode=mode, pen=pen, trans=trans, ops=ops, generic=True, family='contains'))
     allfails = []
     for i in range(0, len(hists), 60):
         allfails += evaluate(exe, drv, qdrv, hists[i:i + 60], stats, True, samples)
@@ -504,7 +572,14 @@ def run(tier):
         'histories_by_config': stats['by_config'], 'ops_per_history_histogram': {str(k): v for k, v in sorted(stats['ops_hist'].items())},
         'op_kind_counts': stats['op_kinds'], 'scene_checks': stats['scene_checks'], 'empty_transaction_checks': stats['noop_checks'],
         'route_comparisons': stats['comparisons'], 'known_degenerate_chord_cases': stats['known_degenerate_chord'],
-        'corpus_histories': stats['corpus'], 'exhaustive': False})
+        'corpus_histories': stats['corpus'], 'exhaustive': False,
+        'contains_family': {'what': 'histories with a connector endpoint strictly inside a shape that later leaves it (move / resize / delete; moved '
+                                    'back; another shape moved or added onto it) followed by a change that recomputes the endpoint\'s visibility',
+                            'route_comparisons': stats['contains_comparisons'],
+                            'comparisons_with_an_endpoint_inside_a_shape_now': stats['contains_endpoint_inside_now'],
+                            'comparisons_after_the_containing_shape_left_the_endpoint': stats['contains_left_behind_endpoint'],
+                            'of_those_with_a_bent_route': stats['contains_left_behind_nontrivial'],
+                            'variant_histogram': stats['contains_variants']}})
     if not res.violations and not info['ok']:
         res.violation({'what': 'a proof obligation of C06 no longer checks; the search (history vs fresh router vs model on the corpus and the '
                                'random histories) found no failing history',
@@ -519,7 +594,8 @@ def replay(path):
     exe = A.harness(); drv = A.driver()
     qdrv = C.ocaml_build('c06', 'C06.v', 'c06_driver.ml', 'c06_model.ml')
     ops = parse_ops(j.get('minimal_history') or j['history'])
-    h = dict(cfg='replay', mode=j['mode'], pen=j['segmentPenalty'], trans=j['transactions'], ops=ops, generic=False)
+    h = dict(cfg='replay', mode=j['mode'], pen=j['segmentPenalty'], trans=j['transactions'], ops=ops, generic=False,
+             family='contains' if str(j.get('config', '')).startswith('contains') or simulate(ops, j['transactions'], generic=False) is None else None)
     fails = evaluate(exe, drv, qdrv, [h], new_stats(), True, None)
     for f in fails:
         f.pop('hist', None)
